@@ -203,7 +203,7 @@ TWIN = {}
 FEATURES = {}
 
 
-def make_pair(name, kind='dict', setstate='records', base='duck', newargs=False, parent=None, passthrough=False, first_bases=(), slots=None):
+def make_pair(name, kind='dict', setstate='records', base='duck', newargs=False, parent=None, passthrough=False, first_bases=(), slots=None, setattr_hook=False):
     def r_getstate(self, remote=False):
         LOG.append(('getstate', id(self), type(self).__name__, bool(remote)))
         return _state(self, remote, kind)
@@ -269,6 +269,13 @@ def make_pair(name, kind='dict', setstate='records', base='duck', newargs=False,
         for d in (rd, td):
             d['__new__'] = __new__
             d['__getnewargs__'] = __getnewargs__
+    if setattr_hook:
+        # attribute assignment is not plain (dirty tracking): restoring the state must go through __dict__, as the standard module does
+        def __setattr__(self, k, v):
+            object.__setattr__(self, k, v)
+            object.__setattr__(self, '_dirty', True)
+        rd['__setattr__'] = __setattr__
+        td['__setattr__'] = __setattr__
     if slots:
         rd['__slots__'] = tuple(slots)
         td['__slots__'] = tuple(slots)
@@ -307,6 +314,7 @@ _R11 = make_pair('R11', 'slots_std', 'none', 'duck', slots=('sa', '__dict__'))  
 _R12 = make_pair('R12', None, None, 'duck', parent=_R0, first_bases=(H0,))      # remote-aware __getstate__ inherited from a NON-first base
 _R13 = make_pair('R13', None, None, 'marker', parent=_R1, first_bases=(H0,))
 _R14 = make_pair('R14', 'dict', 'records', 'duck', newargs='ex_kwonly')
+_R15 = make_pair('R15', 'dict', 'none', 'marker', setattr_hook=True)             # no __setstate__, attribute assignment has side effects
 
 OPTIN_NAMES = list(OPTIN)
 SAFE_OPTIN = ['R0', 'R1', 'R2', 'R3', 'R8', 'R9', 'R12', 'R13']     # dict state + __setstate__: the shapes C15 patches address
